@@ -1006,8 +1006,16 @@ func (p *partition) handleLeaderOffsetRequest(msg *nats.Msg) {
 		p.srv.logger.Errorf("Invalid leader epoch offset request for partition %s: %v", p, err)
 		return
 	}
+	// For an epoch that is over, the log reports the start offset of the epoch
+	// that followed it; for the current epoch, the newest offset. The follower
+	// keeps everything up to and including the offset it is sent, so send the
+	// last offset of the requested epoch in both cases.
+	endOffset := p.log.LastOffsetForLeaderEpoch(req.LeaderEpoch)
+	if req.LeaderEpoch < p.log.LastLeaderEpoch() {
+		endOffset--
+	}
 	resp, err := proto.MarshalLeaderEpochOffsetResponse(&proto.LeaderEpochOffsetResponse{
-		EndOffset: p.log.LastOffsetForLeaderEpoch(req.LeaderEpoch),
+		EndOffset: endOffset,
 	})
 	if err != nil {
 		panic(err)
